@@ -9,6 +9,8 @@ import JunoModel.C12.ProofsNetwork
 import JunoModel.C12.ProofsNonVacuityNet
 import JunoModel.C12.ProofsRunTrace
 import JunoModel.C12.ProofsCommitLast
+import JunoModel.C12.ProofsDriver
+import JunoModel.C12.ProofsLock
 /-!
 C12 — property theorems (statements only; the proofs are in `Proofs*.lean`).
 
@@ -106,10 +108,12 @@ theorem no_double_vote (env : Env) (node : Addr) (h0 : Height) (ins : List Input
   run_no_double_vote env node h0 ins hd
 
 /- The discipline cannot be dropped (robustness lead, see notes/C12.md): `ProcessTimeout` does not
-check `isHeightStarted`, so a timeout delivered between a commit and `ProcessStart` runs the rules
-on the unstarted height, and `ProcessStart` later resets round and step. Witness on the model (the
-same inputs give the same actions on the real state machine, see the harness' `lead` case):
-validator 3 prevotes `8` AND `nil` in (height 0, round 0). -/
+check `isHeightStarted`, so a timeout that matches the height, round and step of a height that is not
+started (delivered between construction / a commit and `ProcessStart`) is acted upon, and
+`ProcessStart` later resets round and step. (Since cd6cea9 a timeout that does NOT match no longer
+runs the rules; the matching one still does.) Witness on the model (the same inputs give the same
+actions on the real state machine, see the harness' `lead` case): validator 3 prevotes `nil` AND `8`
+in (height 0, round 0). -/
 theorem timeout_before_start_breaks_one_vote :
     Action.bcastPrevote ⟨0, 0, 3, some 8⟩ ∈ ((Machine.new exEnv 3 0).run exEnv exUndisciplined).2 ∧
     Action.bcastPrevote ⟨0, 0, 3, none⟩ ∈ ((Machine.new exEnv 3 0).run exEnv exUndisciplined).2 := by
@@ -302,6 +306,116 @@ theorem network_no_conflicting_votes (N : NetEnv) (ok : NetOK N) (net : Net) (hr
     (Action.bcastPrecommit v ∈ (net.node p).out → Action.bcastPrecommit v' ∈ (net.node p).out → v.id = v'.id) :=
   net_one_vote N ok net hr p hp v v' hh hrd
 
+
+/-! ## the action glue and `driver.execute` (round 5)
+
+`Action.requiresWALFlush` and `execute` (`ModelDriver.lean`) transcribe
+`consensus/types/actions/actions.go` and `Driver.execute`: the WAL is flushed right before every
+broadcast and before a commit; `WriteWAL` entries only become durable with such a flush. The real
+driver's calls on the WAL store, the broadcasters and the commit listener are compared with
+`execute`'s on every run (driver traces). -/
+
+/-- **The WAL entry comes first.** For every machine state and every input: whatever precedes a
+broadcast or a Commit in the returned action list contains the `WriteWAL` entry of the input that
+caused it (`walEntriesOf`: the message / timeout itself, `Start` of the height being started; for
+`ProcessSync` the entry of one of its parts). No hypothesis — also for inputs outside the driver's
+discipline and for heights that are not started. -/
+theorem wal_entry_precedes_every_broadcast_and_commit (env : Env) (m : Machine) (i : Input)
+    (pre : List Action) (a : Action) (post : List Action)
+    (h : (m.step env i).2 = pre ++ a :: post) (hf : a.requiresWALFlush = true) :
+    ∃ e, e ∈ walEntriesOf m i ∧ Action.writeWAL e ∈ pre :=
+  step_wal_precedes env m i pre a post h hf
+
+/-- For a single-part input the list is empty or STARTS with the entry of the input. -/
+theorem wal_entry_is_the_first_action (env : Env) (m : Machine) :
+    (∀ r, WalFirst (.start m.state.height) (m.step env (.start r)).2) ∧
+    (∀ p, WalFirst (.proposal p) (m.step env (.proposal p)).2) ∧
+    (∀ v, WalFirst (.prevote v) (m.step env (.prevote v)).2) ∧
+    (∀ v, WalFirst (.precommit v) (m.step env (.precommit v)).2) ∧
+    (∀ s h r, WalFirst (.timeout s h r) (m.step env (.timeout s h r)).2) :=
+  ⟨processStart_walFirst env m, processProposal_walFirst env m, processPrevote_walFirst env m,
+   processPrecommit_walFirst env m, processTimeout_walFirst env m⟩
+
+/-- **Nothing leaves the node before its cause is durable.** Run `driver.execute` (not replaying) on
+the action list of ANY call of the state machine, from any WAL store state `w`: at the moment of every
+broadcast and of the commit delivery (`OnCommit`) the DURABLE part of the store contains a WAL entry
+of the input that caused it. (`execTrace` pairs each call `execute` makes with the store at that
+moment; `execTrace_is_execute` below: it makes exactly `execute`'s calls.) -/
+theorem execute_makes_the_cause_durable_before_any_output (env : Env) (m : Machine) (i : Input)
+    (w : WalStore) (o : DOp) (w' : WalStore) (hm : (o, w') ∈ execTrace w (m.step env i).2)
+    (ho : o.isOutput = true) : ∃ e, e ∈ walEntriesOf m i ∧ e ∈ w'.durable :=
+  execTrace_durable _ _ w false (step_flushOK env m i) (fun h => by cases h) o w' hm ho
+
+theorem execTrace_is_execute (acts : List Action) (w : WalStore) :
+    (execTrace w acts).map Prod.fst = (execute false acts).1 :=
+  execTrace_ops acts w
+
+/-- What `execute` returns is what the driver-loop model uses (`hasCommit`: a Commit anywhere in the
+list) — for every list and both modes. -/
+theorem execute_reports_commit_iff_the_list_has_one (replaying : Bool) (acts : List Action) :
+    (execute replaying acts).2 = hasCommit acts :=
+  execute_reports_commit replaying acts
+
+/-- **Lock bookkeeping, re-lock included.** One rule firing from ANY machine state: if it broadcasts a
+precommit for a value `w`, the machine is afterwards locked on `w` in its CURRENT round — also when
+`w` is the value it was already locked on in an earlier round (a validator locked on `(w, r)` that
+sees a polka for `w` in `r' > r` moves `lockedRound` to `r'`) — with `validValue = w`,
+`validRound =` the current round; the vote carries the current height and round. Together with
+`lock_respected` (the guard of line 28/29 reads exactly this `lockedRound`) and, for the composed
+system, `network_lock_respected` (stated over the precommits the machine BROADCAST, not over the
+field). -/
+theorem value_precommit_moves_the_lock (env : Env) (m : Machine) (rr : Option Round) (v : Vote) (w : Val)
+    (h : (m.process env rr).2.1 = some (Action.bcastPrecommit v)) (hw : v.id = some w) :
+    (m.process env rr).1.state.lockedValue = some w ∧ (m.process env rr).1.state.lockedRound = m.state.round ∧
+    (m.process env rr).1.state.validValue = some w ∧ (m.process env rr).1.state.validRound = m.state.round ∧
+    v.height = m.state.height ∧ v.round = m.state.round :=
+  process_value_precommit_locks env m rr v w h hw
+
+/-- **The lock is the last value precommit** (all disciplined runs, induction over the run). At the end
+of every disciplined run of the machine: (1) if it is locked on `w`, it BROADCAST the precommit for `w`
+in `lockedRound` of its height; (2) every value precommit it broadcast at its height is for a round
+`≤ lockedRound` — with `no_double_vote` (one precommit per round): the lock is exactly the LAST value
+precommit of the height, re-locks on the same value included; (3) not locked ⇒ `lockedRound = -1`, so
+by (2) it broadcast no value precommit at this height in a round `≥ 0`. This is the oracle's own record
+of the lock (built from the emitted precommits) proved equal to the field the guard of line 29 reads. -/
+theorem lock_is_the_last_value_precommit (env : Env) (node : Addr) (h0 : Height) (ins : List Input)
+    (hd : Disciplined env (Machine.new env node h0) ins) :
+    let mf := ((Machine.new env node h0).run env ins).1
+    let out := ((Machine.new env node h0).run env ins).2
+    (∀ w, mf.state.lockedValue = some w →
+      Action.bcastPrecommit ⟨mf.state.height, mf.state.lockedRound, node, some w⟩ ∈ out) ∧
+    (∀ v w, Action.bcastPrecommit v ∈ out → v.height = mf.state.height → v.id = some w →
+      v.round ≤ mf.state.lockedRound) ∧
+    (mf.state.lockedValue = none → mf.state.lockedRound = -1) := by
+  have h := run_lock_is_last_value_precommit env node h0 ins hd
+  refine ⟨fun w hw => ?_, h.1.le, h.1.unl⟩
+  have := h.1.mem w hw
+  rw [h.2] at this
+  exact this
+
+/-- **A height that is not started buffers its messages**: `ProcessProposal/Prevote/Precommit` on a
+height that is not started (between a commit and `ProcessStart`; during WAL replay: messages logged
+for a height before its `Start` entry) return no action, change nothing but the vote counter, and the
+vote counter is updated exactly as for a started height (`AddProposal` / `AddPrevote` / `AddPrecommit`
+come first in the guard) — `ProcessStart`'s rule loop then runs over them. -/
+theorem unstarted_height_buffers_messages (env : Env) (m : Machine) (h : m.isHeightStarted = false) :
+    (∀ p, m.step env (.proposal p) = ({ m with vc := (m.vc.addProposal env p).1 }, [])) ∧
+    (∀ v, m.step env (.prevote v) = ({ m with vc := (m.vc.addVote env v .prevote).1 }, [])) ∧
+    (∀ v, m.step env (.precommit v) = ({ m with vc := (m.vc.addVote env v .precommit).1 }, [])) :=
+  unstarted_buffers env m h
+
+/-- Regression witness for the defect repaired by cd6cea9 (found by C13): `ProcessTimeout` ran the
+rule loop also for a timeout it ignored. After `pendingCommitPrefix` (the machine's own round-1
+precommit completes a quorum while it handles a round-0 message: the commit rule is not evaluated for
+round 1) the obsolete propose timer of round 1 returned `[Commit]` — a commit with NO WAL entry in
+front of it, against `wal_entry_precedes_every_broadcast_and_commit`; the code as it is returns
+nothing. The harness replays this history on the real machine on every run. -/
+theorem ignored_timeout_took_pending_commit_before_cd6cea9 :
+    (((Machine.new exEnv 3 0).run exEnv pendingCommitPrefix).1.processTimeoutBefore_cd6cea9 exEnv .propose 0 1).2
+      = [Action.commit ⟨0, 1, 1, 0, 8⟩] ∧
+    (((Machine.new exEnv 3 0).run exEnv pendingCommitPrefix).1.step exEnv (.timeout .propose 0 1)).2 = [] := by
+  decide
+
 /-! ## non-vacuity -/
 
 -- a disciplined run of the model that locks, commits and starts the next height
@@ -325,9 +439,27 @@ example : ∃ net, NetReach N4 net ∧
     Action.commit ⟨0, 0, 0, -1, 8⟩ ∈ (net.node 0).out ∧ Action.commit ⟨0, 0, 0, -1, 8⟩ ∈ (net.node 1).out ∧
     (net.node 0).m.state.height = 1 ∧ ∃ s, Sim N4.E (N4.envOf 0) s (net.node 0).m := N4_run_two_commit
 -- the trace of a disciplined run is not empty and contains the state in which the lock was taken
-example : ((Machine.new exEnv 1 0).runTrace exEnv exDisciplined).length = 22 := by decide
+example : ((Machine.new exEnv 1 0).runTrace exEnv exDisciplined).length = 21 := by decide
 example : Sim E4 env4 (Sys.init (fun _ => 0)) (Machine.new env4 1 0) := Sim_init E4 env4 (fun _ => 0) 1
 -- thresholds
 example : fN 4 = 1 ∧ qN 4 = 3 ∧ fN 7 = 2 ∧ qN 7 = 5 ∧ fN 10 = 3 ∧ qN 10 = 7 := by decide
+
+-- round 5: an input whose list has a broadcast behind its WAL entry; `execute` flushes in between
+example : (((Machine.new exEnv 1 0).run exEnv [.start 0]).1.step exEnv (.proposal ⟨0, 0, 0, -1, 8⟩)).2 =
+    [.writeWAL (.proposal ⟨0, 0, 0, -1, 8⟩), .bcastPrevote ⟨0, 0, 1, some 8⟩] := by decide
+example : (execute false [.writeWAL (.proposal ⟨0, 0, 0, -1, 8⟩), .bcastPrevote ⟨0, 0, 1, some 8⟩]).1 =
+    [.set (.proposal ⟨0, 0, 0, -1, 8⟩), .flush, .bcast (.bcastPrevote ⟨0, 0, 1, some 8⟩)] := by decide
+-- a machine that is not started exists and buffers: the proposal is in its vote counter afterwards
+example : (Machine.new exEnv 1 0).isHeightStarted = false ∧
+    (((Machine.new exEnv 1 0).step exEnv (.proposal ⟨0, 0, 0, -1, 8⟩)).1.vc.getProposal 0).isSome = true := by decide
+-- a re-lock: validator 3 locked on 8 in round 0 sees a polka for 8 in round 1: its lock moves to round 1
+example : (((Machine.new exEnv 3 0).run exEnv pendingCommitPrefix).1.state.lockedValue,
+           ((Machine.new exEnv 3 0).run exEnv pendingCommitPrefix).1.state.lockedRound) = (some 8, 1) := by decide
+example : (((Machine.new exEnv 3 0).run exEnv relockPrefix).1.state.lockedRound = 0) ∧
+    (((Machine.new exEnv 3 0).run exEnv (relockPrefix ++ relockSuffix)).1.state.lockedRound = 2) ∧
+    Action.bcastPrecommit ⟨0, 2, 3, some 8⟩ ∈ ((Machine.new exEnv 3 0).run exEnv (relockPrefix ++ relockSuffix)).2 := by decide
+-- `lock_is_the_last_value_precommit` on a disciplined run with a re-lock (rounds 0 and 2)
+example : Disciplined exEnv (Machine.new exEnv 3 0) (relockPrefix ++ relockSuffix) := by
+  simp only [relockPrefix, relockSuffix, List.cons_append, List.nil_append, Disciplined, InputOK, and_true, true_and]; decide
 
 end Juno.C12.Props
